@@ -29,7 +29,132 @@ const (
 	ioDeadline          = 1500 * time.Millisecond
 	speaksFirstDeadline = 3500 * time.Millisecond
 	watchdog            = 5 * time.Second
+	queuedWatchdog      = 3 * time.Second
 )
+
+// queuedCancel: the peer accepts the connection and then stays silent; there is no I/O deadline. One caller with the
+// background context owns the handshake and blocks reading the ServerHello; the other callers queue on handshakeMutex
+// and have their contexts cancelled. Only a cancellation can end this: it must close the connection (which ends the
+// owner's I/O), every call must return, and the caller that was cancelled first must report its context error.
+func queuedCancel(c *vh.Ctx, p plan) {
+	key := p.key()
+	ln, err := net.Listen("tcp", "127.0.0.1:0")
+	if err != nil {
+		c.Count("listen-failed")
+		return
+	}
+	defer ln.Close()
+	srvDone := make(chan struct{})
+	go func() { // silent peer: never reads, never writes
+		raw, err := ln.Accept()
+		if err != nil {
+			return
+		}
+		<-srvDone
+		raw.Close()
+	}()
+	defer close(srvDone)
+	raw, err := net.Dial("tcp", ln.Addr().String())
+	if err != nil {
+		c.Count("dial-failed")
+		return
+	}
+	rc := newRecConn(raw)
+	var id utls.ClientHelloID
+	for _, x := range ids {
+		if x.name == p.ID {
+			id = x.id
+		}
+	}
+	uc := utls.UClient(rc, &utls.Config{ServerName: "example.com", InsecureSkipVerify: true}, id)
+	start := time.Now()
+	at := func(us int) {
+		if d := time.Duration(us)*time.Microsecond - time.Since(start); d > 0 {
+			time.Sleep(d)
+		}
+	}
+	var wg sync.WaitGroup
+	type res struct {
+		err       error
+		returned  atomic.Bool
+		cancelled atomic.Bool
+	}
+	owner := &res{}
+	outs := make([]*res, len(p.Callers))
+	wg.Add(1)
+	go func() { defer wg.Done(); owner.err = uc.Handshake(); owner.returned.Store(true) }()
+	for k, cp := range p.Callers {
+		k, cp := k, cp
+		outs[k] = &res{}
+		ctx := context.Background()
+		if cp.Cancellable {
+			var cancel context.CancelFunc
+			ctx, cancel = context.WithCancel(ctx)
+			wg.Add(1)
+			go func() { defer wg.Done(); at(cp.CancelAt); outs[k].cancelled.Store(true); cancel() }()
+		}
+		wg.Add(1)
+		go func() {
+			defer wg.Done()
+			at(cp.StartDelay)
+			outs[k].err = uc.HandshakeContext(ctx)
+			outs[k].returned.Store(true)
+		}()
+	}
+	fin := make(chan struct{})
+	go func() { wg.Wait(); close(fin) }()
+	select {
+	case <-fin:
+	case <-time.After(queuedWatchdog):
+		var stuck []string
+		if !owner.returned.Load() {
+			stuck = append(stuck, "owner")
+		}
+		for k, o := range outs {
+			if !o.returned.Load() {
+				stuck = append(stuck, fmt.Sprintf("caller %d (cancelled=%v)", k, o.cancelled.Load()))
+			}
+		}
+		c.Fail("deadlock/"+key, fmt.Sprintf("silent peer, no I/O deadline: after the queued callers' contexts were cancelled these calls were still blocked after %v", queuedWatchdog),
+			p, fmt.Sprintf("blocked: %v; transport closed=%v", stuck, rc.closed.Load()), "cancellation closes the connection and every call returns")
+		rc.Close()
+		return
+	}
+	c.Count("kind:queued-cancel")
+	closed := rc.closed.Load()
+	var items []string
+	nctx := 0
+	for k, o := range outs {
+		class := "RHsErr"
+		switch {
+		case o.err == nil:
+			class = "RNil"
+			c.Fail("nil-incomplete/"+key, "a caller returned nil against a peer that never answered", p, fmt.Sprintf("caller %d", k), "an error")
+		case errors.Is(o.err, context.Canceled):
+			class = "RCtx"
+			if !closed || !o.cancelled.Load() {
+				c.Fail("ctx-error/"+key, "context error without cancellation or without the connection having been closed", p, fmt.Sprintf("caller %d closed=%v", k, closed), "closed and cancelled")
+			}
+		}
+		if class == "RCtx" {
+			nctx++
+		}
+		items = append(items, fmt.Sprintf("(%s, %s)", class, vh.Bool(o.cancelled.Load())))
+	}
+	// only a cancellation can have ended this handshake: the caller whose interrupter closed the connection reports
+	// its context error (C26_interrupted_iff_ctx_error)
+	if nctx == 0 {
+		c.Fail("closed-without-ctx-error/"+key, "every call returned, so some caller's cancellation closed the connection, but no caller reported its context error",
+			p, fmt.Sprintf("closed=%v results=%v", closed, items), "the interrupting caller returns ctx.Err()")
+	}
+	if owner.err == nil {
+		c.Fail("nil-incomplete/"+key, "the owner returned nil against a peer that never answered", p, "owner", "an error")
+	}
+	items = append(items, "(RHsErr, false)")
+	c.OracleCase("outcome", fmt.Sprintf("COutcome false true %s false %s", vh.Bool(closed), vh.List(items)),
+		"outcome/"+key, "the callers' results are not an outcome the lock model allows", p, len(outs) > 1)
+	rc.Close()
+}
 
 // cancelAtIO: one HandshakeContext caller whose context is cancelled at a chosen point of the transcript. Nobody else
 // can close the transport, so at return: nil => the transport was not closed (the interrupter did not act) and the
@@ -290,6 +415,20 @@ func mkPlan(r *rand.Rand, seed int64, i int) plan {
 		p.RenegDelay = r.Intn(1500)
 		p.Spinners = 2 + r.Intn(3)
 		return p
+	case 4:
+		if (i/7)%2 == 1 {
+			// a silent peer and no I/O deadline: the owner of the handshake (background ctx) blocks in I/O, 1..3
+			// callers with cancellable contexts queue on handshakeMutex and are cancelled at various times
+			p.Kind, p.Server = "queued-cancel", "silent"
+			for k := 1 + r.Intn(3); k > 0; k-- {
+				sd := 100 + r.Intn(500)
+				p.Callers = append(p.Callers, callerPlan{Cancellable: true, StartDelay: sd, CancelAt: sd - 50 + r.Intn(3000)})
+			}
+			if r.Intn(2) == 0 {
+				p.Callers = append(p.Callers, callerPlan{StartDelay: 100 + r.Intn(500), CancelAt: -1})
+			}
+			return p
+		}
 	case 3:
 		// Close while the single writer is blocked in the transport (peer stopped reading, no write deadline)
 		p.Kind, p.Server = "stalled-write-close", "normal"
@@ -551,6 +690,10 @@ func renegotiation(c *vh.Ctx, p plan) {
 func runPlan(c *vh.Ctx, p plan, scfg *tls.Config) {
 	if p.Kind == "renegotiation" {
 		renegotiation(c, p)
+		return
+	}
+	if p.Kind == "queued-cancel" {
+		queuedCancel(c, p)
 		return
 	}
 	ln, err := net.Listen("tcp", "127.0.0.1:0")
